@@ -27,10 +27,16 @@ func (c03) Components() (real, stub []string) {
 }
 
 func (c03) Gen(rng *rand.Rand, tier string, k int) *Case {
+	var c *Case
 	if rng.Intn(100) < 55 {
-		return genIndCase(rng, tier, false)
+		c = genIndCase(rng, tier, false)
+	} else {
+		c = genStratCase(rng, tier)
 	}
-	return genStratCase(rng, tier)
+	if rng.Intn(12) == 0 {
+		c.Variant = 3 // every non-period parameter zero
+	}
+	return c
 }
 
 func (c03) Shrinks(c *Case) []*Case { return pipeShrinks(c) }
